@@ -57,14 +57,17 @@ def fuelFor (g : CG) (cur : Nat) : Nat := (g.rhs.size + 1) * (cur + 2) + 8
 def initRow (g : CG) : List Item :=
   closure g [] 0 (fuelFor g 0) 0 (((g.sym g.start).rules.map (fun r => (r, 0))).foldl addUnique [])
 
+/-- the items of `row` that wait for a lexeme of the set `lx`, advanced over it -/
+def scanned (g : CG) (row : List Item) (lx : List Nat) : List Item :=
+  (row.filter (fun it => match (g.sym (g.atDot it.1)).lexeme with
+    | some l => lx.contains l
+    | none => false)).map (fun it => (it.1 + 1, it.2))
+
 /-- the row pushed after scanning a lexeme of the set `lx` from the last row -/
 def nextRow (g : CG) (rows : List (List Item)) (lx : List Nat) : List Item :=
   let cur := rows.length
   let last := rows.getD (cur - 1) []
-  let scanned := (last.filter (fun it => match (g.sym (g.atDot it.1)).lexeme with
-    | some l => lx.contains l
-    | none => false)).map (fun it => (it.1 + 1, it.2))
-  closure g rows cur (fuelFor g cur) 0 (scanned.foldl addUnique [])
+  closure g rows cur (fuelFor g cur) 0 ((scanned g last lx).foldl addUnique [])
 
 def runRows (g : CG) (lexs : List (List Nat)) : List (List Item) :=
   lexs.foldl (fun rows lx => rows ++ [nextRow g rows lx]) [initRow g]
@@ -72,6 +75,18 @@ def runRows (g : CG) (lexs : List (List Nat)) : List (List Item) :=
 /-- accepting: the last row holds a complete item of the start symbol that began in row 0 -/
 def accepting (g : CG) (rows : List (List Item)) : Bool :=
   (rows.getD (rows.length - 1) []).any (fun it => g.atDot it.1 = 0 && it.2 = 0 && g.lhs it.1 = g.start)
+
+def subsetB (a b : List Item) : Bool := a.all (fun x => b.contains x)
+
+/-- certificate check on a list of rows (the model's, or any other): row 0 holds the start rules,
+every row is closed under `expand`, and row `j+1` holds the items of row `j` scanned over `lexs[j]`.
+`Proofs/EarleyComplete.lean` shows that rows passing this check contain every Earley item, so the
+fuel of `closure` is not part of what the completeness theorem trusts. -/
+def rowsClosed (g : CG) (lexs : List (List Nat)) (rows : List (List Item)) : Bool :=
+  subsetB ((g.sym g.start).rules.map (fun r => (r, 0))) (rows.getD 0 []) &&
+  (List.range rows.length).all (fun j =>
+    (rows.getD j []).all (fun it => subsetB (expand g rows j it) (rows.getD j [])) &&
+    (!(decide (j + 1 < rows.length)) || subsetB (scanned g (rows.getD j []) (lexs.getD j [])) (rows.getD (j + 1) [])))
 
 /-- well-formedness of the dump that the soundness theorem needs (checked by the driver when a
 grammar is loaded): the null symbol has no rules, no lexeme and is not nullable; the rule pointers
@@ -93,6 +108,22 @@ and relies on these flags instead) -/
 def CG.nullableClosed (g : CG) : Bool :=
   (List.range g.syms.size).all (fun s =>
     (g.sym s).nullable || (g.sym s).rules.all (fun r => (g.rhsFrom g.rhs.size r).any (fun x => !(g.sym x).nullable)))
+
+/-- one round of the nullable computation: symbols already known, or with a rule all of whose
+symbols are known -/
+def nullStep (g : CG) (set : List Nat) : List Nat :=
+  (List.range g.syms.size).filter (fun s =>
+    set.contains s || (g.sym s).rules.any (fun r => (g.rhsFrom g.rhs.size r).all (fun x => set.contains x)))
+
+def nullIter (g : CG) : Nat → List Nat
+  | 0 => []
+  | n + 1 => nullStep g (nullIter g n)
+
+/-- every symbol flagged nullable is derived nullable by the rules alone (so the flags add nothing
+to the grammar's language) -/
+def CG.nullableSound (g : CG) : Bool :=
+  let set := nullIter g (g.syms.size + 1)
+  (List.range g.syms.size).all (fun s => !(g.sym s).nullable || set.contains s)
 
 end Ey
 end LlgVerif
